@@ -6,6 +6,7 @@ import (
 	"os"
 	"runtime"
 	"runtime/debug"
+	"strings"
 	"time"
 
 	"github.com/magisterquis/curlrevshell/verifx/bworld"
@@ -28,10 +29,19 @@ type brokerReplay struct {
 func exploreProfiles(r *ev.Result, budget time.Duration, profiles ...*bworld.Profile) {
 	end := time.Now().Add(budget)
 	var perProfile []map[string]any
+	var unstable []string
 	for i, p := range profiles {
 		/* Each profile may use an equal share of what is left. */
 		per := time.Until(end) / time.Duration(len(profiles)-i)
 		res, err := bworld.Explore(p, ncpu(), time.Now().Add(per))
+		if nil != err && strings.HasPrefix(err.Error(), "harness nondeterminism") {
+			/* The program's behaviour is not a function of the history in
+			this profile and none of its oracles failed.  That decides
+			nothing - unless another profile pins the misbehaviour down. */
+			unstable = append(unstable, fmt.Sprintf("exploring %s: %s", p.Name, err))
+			r.Exhaustive = false
+			continue
+		}
 		if nil != err {
 			ev.Broken("exploring %s: %s", p.Name, err)
 		}
@@ -72,6 +82,12 @@ func exploreProfiles(r *ev.Result, budget time.Duration, profiles ...*bworld.Pro
 				Replay:    brokerReplay{Profile: p, History: v.Hist, Text: bworld.HistString(v.Hist)},
 			})
 		}
+	}
+	if 0 != len(unstable) {
+		if 0 == r.NViolations() {
+			ev.Broken("%s", strings.Join(unstable, "; "))
+		}
+		r.Set("profiles_not_explorable", unstable)
 	}
 	r.Set("profiles", perProfile)
 	r.Assume("granularity: broker critical sections (admission, release) and environment events; goroutines run natively between them (DESIGN.md 4.5)")
